@@ -808,3 +808,11 @@ package core
 //@   ensures[C02.ix_get_returns_the_stored_fact] result1 == nil ==> old(has(s.IdToFact, id)) && result0 == old(s.IdToFact[id])
 //@ func (*LinearState).get
 //@   ensures[C02.lin_get_returns_the_stored_fact] result1 == nil ==> old(has(s.Facts, id)) && result0 == old(s.Facts[id]).M
+
+// A rejected add leaves the term index as it was (so a fact that stays stored stays findable).
+//@ funcval (*IndexedState).add.addHook
+//@   modifies allbut(F:core.IndexedState.|F:core.TermIndex.|MD:string:map[string]struct{}|MV:string:map[string]struct{}|ML:string:map[string]struct{}|MD:string:struct{}|MV:string:struct{}|ML:string:struct{}|LK:)
+//@ func (*IndexedState).add
+//@   ensures[C02.ix_rejected_add_keeps_index] result1 != nil ==> forall(t, string, forall(j, string, old(hasEntry(s.FactIndex, t, j)) ==> hasEntry(s.FactIndex, t, j)))
+//@ func (*IndexedState).Add
+//@   ensures[C02.ix_rejected_Add_keeps_index] result1 != nil ==> forall(t, string, forall(j, string, old(hasEntry(s.FactIndex, t, j)) ==> hasEntry(s.FactIndex, t, j)))
